@@ -29,6 +29,7 @@ class Canon:
         self.S, self.FO = f.pos_params[0], f.pos_params[1]
         tv = [n.targets[0].id for n in walk_local(f.node) if isinstance(n, ast.Assign) and isinstance(n.targets[0], ast.Name) and norm(n.value) in (f"{self.S}['type']", f"{self.S}.get('type')")]
         self.tvar = tv[0] if tv else f"{self.S}['type']"
+        self.emit_methods = set()  # `fo.write(x)` on a text stream or `parts.append(x)` on a list of fragments joined with ''
 
     def text_of(self, stmts):
         parts = []
@@ -36,7 +37,8 @@ class Canon:
             order = tree_order(st)
             here = []
             for n in ast.walk(st):
-                if isinstance(n, ast.Call) and isinstance(n.func, ast.Attribute) and n.func.attr == "write" and norm(n.func.value) == self.FO and n.args:
+                if isinstance(n, ast.Call) and isinstance(n.func, ast.Attribute) and n.func.attr in ("write", "append") and norm(n.func.value) == self.FO and len(n.args) == 1 and not n.keywords:
+                    self.emit_methods.add(n.func.attr)
                     here.append((order[id(n)], render(n.args[0])))
             parts.extend(t for _, t in sorted(here))
         return "".join(parts)
@@ -150,6 +152,12 @@ def run(ctx):
     calls = [n for n in walk_local(pub.node) if isinstance(n, ast.Call) and isinstance(n.func, ast.Name) and n.func.id == f.name]
     ok = len(calls) == 1 and norm(calls[0].args[0]) == f"parse_schema({pub.pos_params[0]})"
     ctx.check("C13.R2", "to_parsing_canonical_form(schema) canonicalises parse_schema(schema)", ok, pub.where(), f"to_parsing_canonical_form: {[norm(c) for c in calls]}", "names would not be full names if the schema were not parsed first")
+    if "append" in K.emit_methods:
+        # fragments collected in a list: the text is their concatenation only if the public function joins them with ''
+        out_arg = norm(calls[0].args[1]) if len(calls) == 1 and len(calls[0].args) > 1 else None
+        rets = [norm(n.value) for n in walk_local(pub.node) if isinstance(n, ast.Return) and n.value is not None]
+        if "write" in K.emit_methods or out_arg is None or rets != [f"''.join({out_arg})"] or [norm(v) for v in assigned_values(pub.node, out_arg)] != ["[]"]:
+            ctx.unrecognised("C13.R1", "fragments appended to a list", pub.where(), f"the fragments are not simply joined with '' by the public function (returns {rets})")
     alltext = "".join(t for (_, t) in T.values())
     ctx.check("C13.R2", "no template mentions namespace / doc / aliases / default / order / logicalType", not re.search(r"namespace|doc|aliases|default|order|logicalType", re.sub(r"\x00.*?\x01", "", alltext)), f.where(), "canonical templates", "a non-canonical attribute is emitted")
     names = set()
